@@ -144,7 +144,7 @@ theorem reachable {e : Country} (hW : e.WF) {l : List (Nat × SClass)}
     (hf : fitsClasses ((e.bicLookup.getD [.bankCode]).flatMap
       (fun k => clsAt (expandSpec l) (e.range k))) code = true) :
     ∃ b, fits e b = true ∧ b.length = e.bbanLength ∧ lookupKey e b = code := by
-  obtain ⟨l', hps', _, hexp⟩ := hW.spec
+  obtain ⟨l', _, hps', _, _, hexp⟩ := hW.spec
   rw [hps] at hps'; cases hps'
   generalize hL : e.bicLookup.getD [.bankCode] = L at hnd hpub hf
   let cls := expandSpec l
